@@ -128,6 +128,7 @@ inductive Ret (X : Type)
   | fresh (v : X)      -- a newly built object
   | none               -- `-> None`
   | aux                -- a result record that is not a model (`FoldConstantsResult`)
+  | raised             -- the call refused its argument (`raise ValueError(...)`) before touching anything
 
 /-- Everything observable about one call: the content of the caller's object afterwards and the return. -/
 structure Outcome (X : Type) where
@@ -197,6 +198,18 @@ def protoConvertOld {P I W : Type} (s : Serde P I) (T : Api → Opts W → Rec I
 def inlinePath {I : Type} (hasFunctions : Rec I → Bool) (inl : Rec I → Rec I) (m : Rec I) : Outcome (Rec I) :=
   ⟨if hasFunctions m then inl m else m, .none⟩
 
+/-- `replace_functions` / `replace_functions_inplace` with their guard (`utils/replace.py` 23-26):
+`if len(model_functions) != 0: raise ValueError("Input model cannot have model-local functions.")` — the
+implementation inlines *every* function afterwards, so a model that has functions of its own is refused
+before anything is touched.  (On the proto entry the guard runs on `de M`, before any write-back can happen.) -/
+def irReplace {I W : Type} (T : Api → Opts W → Rec I → Rec I) (hasFunctions : Rec I → Bool) (o : Opts W)
+    (m : Rec I) : Outcome (Rec I) :=
+  if hasFunctions m then ⟨m, .raised⟩ else irPath T .replaceFunctions o m
+
+def protoReplace {P I W : Type} (s : Serde P I) (T : Api → Opts W → Rec I → Rec I) (hasFunctions : Rec I → Bool)
+    (o : Opts W) (M : Rec P) : Outcome (Rec P) :=
+  if hasFunctions (s.de M) then ⟨M, .raised⟩ else protoPath s T .replaceFunctions o M
+
 /-- APIs whose proto entry moves the *whole* serialised result into the result object. -/
 def Api.wholesale : Api → Bool
   | .rewrite true => false
@@ -239,6 +252,6 @@ def symArg : Rec String := fun _ => "M"
 def symOpts : Opts String := OptKey.name
 
 def showRet {X : Type} : Ret X → String
-  | .argItself => "arg" | .fresh _ => "fresh" | .none => "none" | .aux => "aux"
+  | .argItself => "arg" | .fresh _ => "fresh" | .none => "none" | .aux => "aux" | .raised => "raised"
 
 end OV.C15
